@@ -140,3 +140,34 @@ pub mod c02 {
         Ok(Guarded { value: acc, guard: keep })
     }
 }
+
+// C01 R7 controls: element-wise copy inside one vector at two different offsets
+pub mod c01 {
+    /// forward copy without a direction test: wrong when the ranges overlap and to > from
+    pub fn bad_copy_within(v: &mut Vec<u64>, from: usize, to: usize, count: usize) {
+        for i in 0..count {
+            let x = v.get(from + i).cloned();
+            if let (Some(x), Some(slot)) = (x, v.get_mut(to + i)) {
+                *slot = x;
+            }
+        }
+    }
+    /// the direction is chosen by comparing the two offsets
+    pub fn good_copy_within(v: &mut Vec<u64>, from: usize, to: usize, count: usize) {
+        if to <= from {
+            for i in 0..count {
+                let x = v.get(from + i).cloned();
+                if let (Some(x), Some(slot)) = (x, v.get_mut(to + i)) {
+                    *slot = x;
+                }
+            }
+        } else {
+            for i in (0..count).rev() {
+                let x = v.get(from + i).cloned();
+                if let (Some(x), Some(slot)) = (x, v.get_mut(to + i)) {
+                    *slot = x;
+                }
+            }
+        }
+    }
+}
